@@ -2,6 +2,7 @@ import os
 import logging
 import asyncio
 import sqlite3
+import struct
 import platform
 from binascii import hexlify
 from collections import defaultdict
@@ -770,6 +771,11 @@ class Database(SQLiteMixin):
                     }, ignore_duplicate=True)).fetchall()
 
         for txo in tx.outputs:
+            try:
+                txo.script.template
+            except (ValueError, struct.error):
+                # an output whose script matches no known template (or does not even tokenize) cannot be ours
+                continue
             if txo.script.is_pay_pubkey_hash and (txo.pubkey_hash == txhash or is_my_input):
                 conn.execute(*self._insert_sql(
                     "txo", self.txo_to_row(tx, txo), ignore_duplicate=True
